@@ -35,7 +35,11 @@ def one(d):
         dm = subprocess.run(["/venv/bin/python", demo], cwd=w, env=env, capture_output=True, text=True, timeout=600)
         r = subprocess.run(["/verif/check", prop, "--tier", tier], env=dict(os.environ, PMV_REPO=w, PMV_JOBS="6"), capture_output=True, text=True, cwd="/verif")
         keys = [l.split("key=")[1].split()[0] for l in r.stdout.splitlines() if l.startswith("VIOLATION") and "key=" in l]
-        status = ("CAUGHT" if r.returncode == 1 else "MISSED(exit %d)" % r.returncode)
+        if meta.get("property_holds_on_changed_tree"):
+            # a change that turned out NOT to break the property inside its quantified domain: the check has to stay silent
+            status = ("CAUGHT (silent as it should be: property holds)" if r.returncode == 0 else "FALSE-ALARM(exit %d)" % r.returncode)
+        else:
+            status = ("CAUGHT" if r.returncode == 1 else "MISSED(exit %d)" % r.returncode)
         return name, prop, "%s tests=%s demo_exit=%d" % (status, "pass" if t.returncode == 0 else "FAIL", dm.returncode), ",".join(keys[:3])
     finally:
         subprocess.run(["git", "-C", "/repo", "worktree", "remove", "--force", w], capture_output=True)
